@@ -5,6 +5,8 @@ import Receptor.Drive.Pkt
 import Receptor.Drive.Fw
 import Receptor.Drive.Cert
 import Receptor.Drive.Flood
+import Receptor.Drive.Route
+import Receptor.Drive.Aging
 /-! Line-protocol driver: one JSON request per line `{"e":engine,"op":op,"a":args,"r":impl-observation}`,
 one JSON reply per line `{"m":model-result,"prop":true|false|null,"why":…}` or `{"bad-op":…}`. -/
 open Lean Receptor.Drive
@@ -18,6 +20,8 @@ def dispatch (e op : String) (a r : Json) : Except String Reply :=
   | "fw" => Receptor.Drive.Fw.handle op a r
   | "cert" => Receptor.Drive.Cert.handle op a r
   | "flood" => Receptor.Drive.Flood.handle op a r
+  | "route" => Receptor.Drive.Route.handle op a r
+  | "aging" => Receptor.Drive.Aging.handle op a r
   | _ => throw s!"bad-op unknown engine {e}"
 
 def handleLine (line : String) : String :=
